@@ -865,7 +865,10 @@ func SpecMatch(pattern string, hasWild bool, s string) bool {
 //@   ensures[C12] !old(rs.resetting) && t != nil ==> callcount("Add") == old(callcount("Add")) + 1
 //@   assert[C12,C14] rs.e.cache.mq.SendRequest#2: arg0 == "get." + rs.e.ResourceName
 //@   ensures[C19] t != nil ==> predThrottleInv(t)
-//@   assigns rs.resetting, t.running, t.queue, elems(t.queue)
+// (the re-fetch is a user of the cache entry from the moment it is decided until its answer has
+// been processed - also while it waits in the throttle: the event subscription is kept meanwhile)
+//@   ensures[C09] rs.e.count == old(rs.e.count) + ite(old(rs.resetting), 0, 1)
+//@   assigns rs.resetting, rs.e.count, t.running, t.queue, elems(t.queue)
 //@   safety[C15]
 //@ closure (*ResourceSubscription).handleResetResource#1
 //@   requires rs != nil && rs.e != nil && rs.e.cache != nil && rs.e.cache.mq != nil && t != nil && subj == "get." + rs.e.ResourceName
@@ -884,6 +887,7 @@ func SpecMatch(pattern string, hasWild bool, s string) bool {
 //@ closure (*ResourceSubscription).handleResetResource#3
 //@   requires rs != nil && rs.e != nil && rs.e.cache != nil && (err != nil ==> reserr.predErrOK(err))
 //@   assert[C03,C12] rs.processResetGetResponse#1: !rs.resetting
+//@   assert[C09] rs.e.removeCount#1: arg0 == 1 && callcount("processResetGetResponse") == old(callcount("processResetGetResponse")) + 1
 //@   safety[C15]
 //@ closure (*ResourceSubscription).handleResetResource#4
 //@   requires rs != nil && rs.e != nil && rs.e.cache != nil
@@ -892,6 +896,7 @@ func SpecMatch(pattern string, hasWild bool, s string) bool {
 //@ closure (*ResourceSubscription).handleResetResource#5
 //@   requires rs != nil && rs.e != nil && rs.e.cache != nil && (err != nil ==> reserr.predErrOK(err))
 //@   assert[C03,C12] rs.processResetGetResponse#2: !rs.resetting
+//@   assert[C09] rs.e.removeCount#2: arg0 == 1 && callcount("processResetGetResponse") == old(callcount("processResetGetResponse")) + 1
 //@   safety[C15]
 
 //@ func mq.Unsubscriber.Unsubscribe
